@@ -41,7 +41,9 @@ class Conv:
     def mode(self, m):
         return {"mc": "MustCreate", "mr": "MustReplace", "cor": "CreateOrReplace"}.get(m)
 
-    def rpc(self, q):
+    def rpc(self, q, strict=False):
+        """strict: None for every request the model has no term for. Otherwise a waitsendpay that carries a timeout is lowered to
+        the plain wait (the part it waits for is the same; the node's "timed out" answer is the event GTimeout)."""
         k = q["k"]
         if k == "liststate": return "QListState"
         if k == "wstate":
@@ -55,7 +57,7 @@ class Conv:
         if k == "listpend": return "QListPend"
         if k == "listdone": return "QListDone"
         if k == "wait":
-            if q["pid"] is None or q.get("timeout") is not None: return None
+            if q["pid"] is None or (strict and q.get("timeout") is not None): return None
             return "(QWaitPart %d%%nat)" % q["pid"]
         if k == "pay":
             if q["other"] != EXPECTED_OTHER or q["maxfee"] is None or q["maxdelay"] is None or q["retry"] is None or q["inv"] is None: return None
@@ -111,6 +113,7 @@ class Conv:
         if k == "htlc": return "(GHtlc %s)" % self.request(ev)
         if k == "burst": return "(GBurst %s)" % coq_list([self.request(it) for it in ev["items"]])
         if k == "proc":
+            if ev.get("fault") == "timeout": return "(GTimeout %d%%nat %d%%nat)" % (ev["h"], ev["c"])
             f = {"none": "NoFault", "rej": "Rejected", "abe": "AppliedButError"}[ev.get("fault", "none")]
             return "(GEv %d%%nat (EvProcess %d%%nat %s))" % (ev["h"], ev["c"], f)
         if k == "deliver": return "(GEv %d%%nat (EvDeliver %d%%nat true))" % (ev["h"], ev["c"])
@@ -130,6 +133,10 @@ class Conv:
         if k == "crash": return "GCrash"
         raise ValueError(k)
 
+    def interpretable(self):
+        """True when every out-of-vocabulary output has a lowering (the monitors can still read the trace)."""
+        return all(o["o"] == "call" and self.rpc(o["q"]) is not None for _, o in self.out_of_vocabulary())
+
     def out_of_vocabulary(self):
         """Outputs of the implementation that the model has no term for (an RPC with arguments the plugin never uses on the
         unchanged tree, a response of unknown shape): [(step, output)]. Such a trace cannot be replayed through the model."""
@@ -137,6 +144,8 @@ class Conv:
         for k, st in enumerate(self.t["steps"]):
             for o in st["out"]:
                 if o["o"] in ("resp", "call", "cancel") and self.out(o) == "GOther":
+                    bad.append((k, o))
+                elif o["o"] == "call" and self.rpc(o["q"], strict=True) is None:
                     bad.append((k, o))
         return bad
 
